@@ -475,7 +475,45 @@ class G:
         self.top.append('static int %s(int, int b, long) { return b * 2; }\nstatic int %s_v(void) { return 4; }\nstatic int %s_k() { return 5; }\n' % (f, f, f))
         return '\tmix(%s(1, %s, 3)); mix(%s_v()); mix(%s_k());\n' % (f, self.small(), f, f)
 
-    SNIPPETS = ['s_builtins', 's_c23', 's_unnamed_params', 's_scopes', 's_func_scopes', 's_addr_const', 's_float_ops', 's_char_sign', 's_assign_chain', 's_vla', 's_vla_param', 's_ptrptr', 's_arith_runtime', 's_typedef_typeof', 's_alignas', 's_nested_calls', 's_init_exprs', 's_enum', 's_array_sum', 's_array2d', 's_struct_copy', 's_struct_call', 's_bitfield_ops', 's_union', 's_switch', 's_goto', 's_loops', 's_recursion', 's_fptr', 's_varargs', 's_strings',
+
+    def s_duff(self):
+        r = self.r; n = r.randint(0, 23)
+        return ('\t{ int count = %d, n, acc = 0, i = 0; if (count > 0) { n = (count + 3) / 4;\n\tswitch (count %% 4) { case 0: do { acc += ++i; case 3: acc += ++i * 2; case 2: acc += ++i * 3; case 1: acc += ++i * 5; } while (--n > 0); } }\n\tmix(acc); mix(i);\n'
+                '\t{ int k, j, tot = 0; for (k = 0; k < 4; k++) switch (k) { case 0: for (j = 0; j < 3; j++) { if (j == 1) continue; tot += j; case 9: tot++; } break; default: switch (k & 1) { case 1: tot += 10; break; default: tot += 100; } } mix(tot); } }\n' % n)
+
+    def s_float_cond(self):
+        r = self.r
+        v = r.choice(['0.0', '0.5', '-0.0', '1e-40f', '3.0'])
+        return ('\t{ double d = %s; float f = (float)d; double z = 0.0, nan = (z / (z == 0 ? 0.0 : 1.0)) != (z / (z == 0 ? 0.0 : 1.0)) ? 0.0 / (z + 0.0 == 0 ? z : 1) : 0; int c = 0;\n'
+                '\tif (d) c += 1; if (f) c += 2; if (!d) c += 4; while (f) { c += 8; f = 0; } c += d ? 16 : 32; c += (d && f) ? 64 : 0; c += (d || z) ? 128 : 0; for (f = 2; f; f -= 1) c += 256; do c += 512; while (z);\n'
+                '\tmix(c); mix(d == 0); mix(d < z); mix(-d == d); mix((int)(d * 10)); mix(d ? (int)d : -1); mixd(d ? d : 1); mixd(c ? 1.5f : 2); mix(sizeof(c ? 1.5f : 2)); mix(sizeof(c ? 1 : 2L)); }\n' % v)
+
+    def s_struct_chains(self):
+        r = self.r; tag = self.id('SC'); f = self.id('mk')
+        self.top.append('struct %s { int a[3]; struct { char c; long l; } in; double d; };\nstatic struct %s %s(int k) { struct %s r = {{k, k + 1, k + 2}, {(char)k, k * 1000L}, k / 2.0}; return r; }\n' % (tag, tag, f, tag))
+        k = r.randint(1, 60)
+        return ('\t{ struct %s v = %s(%d), w; int c = %d;\n\tmix(%s(%d).a[1]); mix(%s(%d).in.l); mixd(%s(%d).d); mix((c ? %s(1) : %s(2)).a[0]); mix((c ? v : %s(9)).in.c); w = c ? %s(5) : v; mix(w.a[2]); w = (mix(1), v); mix(w.in.l);\n'
+                '\tmix((w = %s(7)).a[0]); mix(w.a[1]); mix(sizeof %s(1).a); mix(sizeof (c ? v : w)); { struct %s *p = &v; mix((*p).a[2]); mix(p->in.c); mix((&p->in)->l); mix((&(*p))->a[0]); mix(p[0].a[1]); } }\n'
+                % (tag, f, k, r.randint(0, 1), f, k, f, k, f, k, f, f, f, f, f, f, tag))
+
+    def s_sizeof_noeval(self):
+        return ('\t{ int x = 1, a[5]; long y = 2; mix(sizeof(x++)); mix(x); mix(sizeof(y = 7)); mix(y); mix(sizeof(a) / sizeof(a[x++])); mix(x); mix(alignof(typeof(x++))); mix(x);\n'
+                '\t{ int n = 3; mix(sizeof(int[n++])); mix(n); mix(sizeof(char[2][n])); } mix(sizeof(struct { char c; long l; })); mix(sizeof(union { char c[9]; int i; })); mix(sizeof((char)x + (char)x)); mix(sizeof \'a\'); mix(sizeof "abc"); mix(sizeof L"ab" / sizeof(int)); }\n')
+
+    def s_array_completion(self):
+        r = self.r; a = self.id('inc'); n = r.randint(2, 6)
+        self.top.append('extern int %s[];\nstatic int %s_get(int i) { return %s[i]; }\nint %s[%d] = {[%d] = 9};\nstatic int %s_size(void) { return sizeof %s / sizeof %s[0]; }\nint %s_t[]; static int %s_tn(void) { return %s_t[0]; }\n'
+                        % (a, a, a, a, n, n - 1, a, a, a, a, a, a))
+        return '\tmix(%s_get(%d)); mix(%s_size()); mix(%s_tn());\n' % (a, n - 1, a, a)
+
+    def s_bitfield_misc(self):
+        r = self.r; tag = self.id('BM')
+        w1, w2 = r.randint(1, 31), r.randint(1, 63)
+        self.top.append('union %s { struct { unsigned lo : 4; unsigned hi : 4; _Bool f : 1; signed s : %d; } b; unsigned w; };\nstruct %s_l { long l : %d; unsigned long u : %d; long long m : 64; };\n' % (tag, w1, tag, w2, w2))
+        return ('\t{ union %s u; struct %s_l q = {-1, -1, -1}; u.w = 0; u.b.lo = 0x1f; u.b.hi = 9; u.b.f = 2; u.b.s = -1; mix(u.b.lo); mix(u.b.hi); mix(u.b.f); mix(u.b.s); mix(u.w & 0x1ff); u.b.s = (1 << %d) - 1; mix(u.b.s); u.b.f = 0.5; mix(u.b.f);\n'
+                '\tmix(q.l); mix(q.u); mix(q.m); q.l = 1L << %d; mix(q.l); q.u += 2; mix(q.u); mix(q.l < 0); mix(q.u > 0); mix(-q.u > 0); mix(sizeof(q.l + 0)); mix(u.b.lo - 1 < 0); mix(sizeof q); }\n' % (tag, tag, w1 - 1 if w1 > 1 else 0, w2 - 1))
+
+    SNIPPETS = ['s_duff', 's_float_cond', 's_struct_chains', 's_sizeof_noeval', 's_array_completion', 's_bitfield_misc', 's_builtins', 's_c23', 's_unnamed_params', 's_scopes', 's_func_scopes', 's_addr_const', 's_float_ops', 's_char_sign', 's_assign_chain', 's_vla', 's_vla_param', 's_ptrptr', 's_arith_runtime', 's_typedef_typeof', 's_alignas', 's_nested_calls', 's_init_exprs', 's_enum', 's_array_sum', 's_array2d', 's_struct_copy', 's_struct_call', 's_bitfield_ops', 's_union', 's_switch', 's_goto', 's_loops', 's_recursion', 's_fptr', 's_varargs', 's_strings',
                 's_compound_literal', 's_once', 's_logic', 's_conversions', 's_static_local', 's_ptr_struct_array', 's_many_args', 's_ternary_types']
 
     def program(self, nblocks=12):
